@@ -58,6 +58,7 @@ func (p Parser) ParseFile(fileName string) {
 	f, err := os.Open(fileName)
 	if err != nil {
 		p.Errors <- NewErrorIO(err, fileName)
+		p.Done <- true
 		return
 	}
 	defer f.Close()
@@ -164,14 +165,18 @@ func ParseStreamCallback(reader io.Reader, c Config, callback ParseCallback) err
 
 // ParseStream parses the contents of stream
 func (p Parser) ParseStream(reader io.Reader) {
+	// the callback reports a parse error itself and hands it back to stop the
+	// parser, so the returned error must not be sent a second time
+	reported := false
 	if err := ParseStreamCallback(reader, p.config, func(n *shared.ParserNode, err error) (stop bool, cbError error) {
 		if err != nil {
+			reported = true
 			p.Errors <- err
 			return true, err
 		}
 		p.Nodes <- n
 		return false, nil
-	}); err != nil {
+	}); err != nil && !reported {
 		p.Errors <- err
 	}
 	p.Done <- true
